@@ -89,6 +89,16 @@ def c02(trace, case, end):
                     probs.append(('market-price', {'sim': simname}, 'MARKET order %d priced %r while the current price was %r' % (o['oid'], o['price'], cur)))
             elif o['final'] is None:
                 probs.append(('market-never-filled', {'sim': simname}, 'MARKET order %d was never executed' % o['oid']))
+            # "at the moment it is submitted": a MARKET order placed at the current price (e.g. from a fill handler in the middle
+            # of a minute) is dealt with before the price moves on, i.e. before any resting order of the symbol fills
+            cur = o['cur_price']
+            if cur and o['price'] == cur and o['final_idx'] is not None:
+                for ev in trace[o['submit_idx'] + 1:o['final_idx']]:
+                    if ev[0] == 'exec' and not ev[3] and ev[1] in orders and orders[ev[1]]['symbol'] == sym and orders[ev[1]]['type'] != 'MARKET':
+                        probs.append(('market-overtaken', {'sim': simname, 'market_order_finally': o['final']},
+                                      'MARKET order %d was submitted at the current price %r, but resting order %d at %r was filled before it was %s'
+                                      % (o['oid'], cur, ev[1], orders[ev[1]]['price'], 'executed' if o['final'] == 'exec' else 'cancelled')))
+                        break
             continue
         # resting order
         if o['final'] == 'exec':
@@ -209,13 +219,15 @@ def c08(trace, case):
                 ev = trace[idx]
                 if ev[0] == 'submit' and ev[2] == sym:
                     created_at[ev[1]] = cursor
-                    if ev[3] != 'MARKET':
-                        active.add(ev[1])
+                    if ev[3] != 'MARKET' or (ev[9] and ev[6] == ev[9]):
+                        active.add(ev[1])       # a MARKET order placed at the current price sits at the point of the path where it was created
                 if ev[0] == 'cancel' and not ev[3]:
                     active.discard(ev[1])
                 if ev[0] != 'exec' or ev[3] or ev[1] not in orders:
                     continue
                 o = orders[ev[1]]
+                if o['symbol'] == sym and o['type'] == 'MARKET':
+                    active.discard(o['oid'])
                 if o['symbol'] != sym or o['type'] == 'MARKET':
                     continue
                 active.discard(o['oid'])
@@ -240,9 +252,9 @@ def c08(trace, case):
                 # nothing that the path reached strictly earlier may still be waiting
                 for b in sorted(active):
                     ob = orders[b]
-                    pb = first_arrival(path, ob['price'], created_at.get(b, 0.0))
+                    pb = created_at[b] if ob['type'] == 'MARKET' else first_arrival(path, ob['price'], created_at.get(b, 0.0))
                     if pb is not None and pb < pos - 1e-9:
-                        probs.append(('path-skipped', {'skipped': 'reaction' if b in created_at else 'resting', 'filled': kind},
+                        probs.append(('path-skipped', {'skipped': 'market-reaction' if ob['type'] == 'MARKET' else 'reaction' if b in created_at else 'resting', 'filled': kind},
                                       'minute %d path %s: order %d at %r filled at distance %r while order %d at %r (reached at %r) was still waiting'
                                       % (m, path, o['oid'], o['price'], pos, b, ob['price'], pb)))
                         break
